@@ -94,6 +94,13 @@ type End struct {
 	// hooks run inline in the calling thread
 	readBrk     chan struct{}
 	readDown    bool
+	// HoldIf: a Write call for which it returns true stays inside the transport (it does not see
+	// its context end: a kernel buffer, a peer that has stopped reading) until ReleaseHeld; it
+	// then fails (ReleaseHeld(true)) or goes on normally. Holding counts the calls held now.
+	HoldIf   func(k int, rpc *Rpc) bool
+	Holding  int
+	holdGate chan struct{}
+	holdFail bool
 	OnWrite     func(k int, rpc *Rpc) // before the k-th envelope is enqueued
 	OnWriteCall func(k int, rpc *Rpc) // at the start of every Write call, before any injected failure
 	OnRead      func(k int, rpc *Rpc) // after the k-th envelope was dequeued
@@ -143,6 +150,15 @@ func (e *End) readErr() error {
 		return e.ReadFailErr
 	}
 	return ErrReadFault
+}
+
+// ReleaseHeld lets the Write calls held by HoldIf go on: they fail if fail is set, else proceed.
+func (e *End) ReleaseHeld(fail bool) {
+	e.holdFail = fail
+	if e.holdGate != nil {
+		close(e.holdGate)
+		e.holdGate = nil
+	}
 }
 
 // FailReads makes the pending Read (if any) and every later Read of this end fail, at the
@@ -202,6 +218,18 @@ func (e *End) Write(ctx context.Context, rpc *Rpc) error {
 	k := e.NWritten
 	if e.OnWriteCall != nil {
 		e.OnWriteCall(k, rpc)
+	}
+	if e.HoldIf != nil && e.HoldIf(k, rpc) {
+		if e.holdGate == nil {
+			e.holdGate = make(chan struct{})
+		}
+		g := e.holdGate
+		e.Holding++
+		<-g
+		e.Holding--
+		if e.holdFail {
+			return ErrWriteFault
+		}
 	}
 	if e.WriteFailAt >= 0 && k >= e.WriteFailAt {
 		return ErrWriteFault
